@@ -98,10 +98,13 @@ TQPanic == IsEvent("qpanic") /\ QueryPanicked(l, Ev.n) /\ Consume
 TArm == IsEvent("arm") /\ Arm(l, Ev.n) /\ Consume
 TDisarm == IsEvent("disarm") /\ Disarm(l) /\ Consume
 TCancel == IsEvent("cancel") /\ Cancelled(l) /\ Consume
+(* markers and state dumps belong to the mechanism-level conformance *)
+TSkip == l <= Len(Rec) /\ Ev.e \in {"act", "dump"} /\ UNCHANGED obsVars /\ Consume
 
 Known == {"prog", "reset", "begin", "set", "world", "refresh_start", "refresh",
           "commit", "tracked", "drop", "query", "enter", "read", "exec", "restart",
-          "crash", "recovered", "crash_panic", "hang", "qpanic", "arm", "disarm", "cancel"}
+          "crash", "recovered", "crash_panic", "hang", "qpanic", "arm", "disarm", "cancel",
+          "act", "dump"}
 
 TUnknown ==
     /\ l <= Len(Rec) /\ Ev.e \notin Known
@@ -120,7 +123,7 @@ Finish ==
 TraceNext ==
     \/ StartRun \/ EndRun \/ TBegin \/ TSet \/ TWorld \/ TRefreshStart \/ TRefresh
     \/ TCommit \/ TTracked \/ TDrop \/ TQuery \/ TEnter \/ TRead \/ TExec \/ TRestart
-    \/ TCrash \/ TRecovered \/ TCrashPanic \/ THang \/ TQPanic \/ TArm \/ TDisarm \/ TCancel
+    \/ TCrash \/ TRecovered \/ TCrashPanic \/ THang \/ TQPanic \/ TArm \/ TDisarm \/ TCancel \/ TSkip
     \/ TUnknown \/ Finish
 
 TraceSpec == TraceInit /\ [][TraceNext]_traceVars
